@@ -70,13 +70,13 @@ type Res struct {
 }
 
 type Case struct {
-	RF   bool  `json:"record_first,omitempty"` // the actor calls StateChanged before applying the event (open finding C09-snapshot-before-apply)
-	Th   int64 `json:"th"`                     // snapshot threshold of the first context
+	RF bool  `json:"record_first,omitempty"` // the actor calls StateChanged before applying the event (open finding C09-snapshot-before-apply)
+	Th int64 `json:"th"`                     // snapshot threshold of the first context
 	// Store: "" = persistence.MemoryStorage; "roomy" = the harness's own map storage, which keeps a copy of what it is
 	// handed in a slice with spare capacity (what Load returns can be appended to in place)
 	Store string `json:"store,omitempty"`
 	Ops   []Op   `json:"ops"`
-	Impl []Res `json:"impl"`
+	Impl  []Res  `json:"impl"`
 }
 
 // ---------------------------------------------------------------- recording storage
@@ -682,8 +682,8 @@ func opName(k string) string {
 // reuse the journal's backing array in place: a stored record that shares it is overwritten).
 type faultTrack struct {
 	anyFailed, failedSinceOK, everSaved bool
-	truncSinceOK, overwriteSinceOK     bool
-	consecutive, maxConsecutive        int
+	truncSinceOK, overwriteSinceOK      bool
+	consecutive, maxConsecutive         int
 }
 
 func (t *faultTrack) event(snapReq bool) {
